@@ -64,7 +64,7 @@ Proof. vm_compute. split; reflexivity. Qed.
 (* since the repair of D1 a lower-case type parameter is no longer a defect family *)
 Example C01_tparam_fixed :
   let i := mkInput src0 [] None
-             [("L", LIface true true [mkTparam "k" (TAlias None "any" []) []]
+             [("L", LIface true true [mkTparam "k" (TAlias None "any" []) [] false]
                            [mkMethod "Get" (mkSig [("key", TParam "k")] false [])])] in
   match mock_run i cfg0 ["L"] with Ok d => failing d | _ => ["?"%string] end = [].
 Proof. vm_compute. reflexivity. Qed.
